@@ -177,7 +177,7 @@ func Do(addr string, rq RawReq) *RawResp {
 	d0 := time.Now()
 	c, err := net.DialTimeout("tcp", addr, 10*time.Second)
 	if IsSim && time.Since(d0) != 0 {
-		FlagAnomaly() // a loopback connect never takes virtual time
+		FlagAnomaly("dial took virtual time")
 	}
 	if err != nil {
 		res.Err = "dial: " + err.Error()
@@ -218,7 +218,7 @@ func Do(addr string, rq RawReq) *RawResp {
 	res.BodyLen = len(res.Body)
 	res.BodyHash = hashBytes(res.Body)
 	if rq.Instant && IsSim && time.Since(start) != 0 {
-		FlagAnomaly() // the script contains no wait, so the exchange takes 0 virtual ns
+		FlagAnomaly(fmt.Sprintf("instant exchange %s %s took %v", rq.Method, trunc40(rq.Target), time.Since(start))) // the script contains no wait
 	}
 	return res
 }
@@ -385,4 +385,11 @@ func Gunzip(p []byte) ([]byte, error) {
 	}
 	defer zr.Close()
 	return io.ReadAll(zr)
+}
+
+func trunc40(s string) string {
+	if len(s) > 40 {
+		return s[:40]
+	}
+	return s
 }
